@@ -49,10 +49,6 @@ class A(Plain):
     pass
 
 
-class B(A):
-    pass
-
-
 class X(Falsy, Plain):
     pass
 
@@ -78,20 +74,32 @@ def _probe_queries(comp, entity, world, when):
         sink.append((comp.label, when, entity, repr(exc)))
 
 
-@desper.event_handler('on_add', 'on_remove', 'ping')
+@desper.event_handler(on_add='h_added', on_remove='h_removed', ping='h_ping')
 class H(Plain):
+    """Handler component.  The callbacks are *mapped* names: methods that
+    happen to be called on_add / on_remove exist too, but they are decoys -
+    the library must go through the event mapping, never through the event
+    name."""
     sink = None     # list collecting failures of queries made in callbacks
 
-    def on_add(self, entity, world):
+    def h_added(self, entity, world):
         self.log.append((self.label, 'on_add', entity, id(world)))
         _probe_queries(self, entity, world, 'on_add')
 
-    def on_remove(self, entity, world):
+    def h_removed(self, entity, world):
         self.log.append((self.label, 'on_remove', entity, id(world)))
         _probe_queries(self, entity, world, 'on_remove')
 
-    def ping(self, token):
+    def h_ping(self, token):
         self.log.append((self.label, 'ping', token, None))
+
+    def on_add(self, *args):
+        self.log.append((self.label, 'DECOY on_add called by name', args,
+                         None))
+
+    def on_remove(self, *args):
+        self.log.append((self.label, 'DECOY on_remove called by name', args,
+                         None))
 
 
 class HB(Falsy, H):
@@ -102,8 +110,8 @@ class HD(H):
     """on_remove asks for the (deferred) deletion of its own entity."""
     effects = None
 
-    def on_remove(self, entity, world):
-        super().on_remove(entity, world)
+    def h_removed(self, entity, world):
+        super().h_removed(entity, world)
         existed = bool(world.get_components(entity))
         world.delete_entity(entity)
         self.effects.append((entity, existed))
@@ -114,11 +122,21 @@ class HZ(H):
     else the running operation still has to announce is postponed."""
     marks = None
 
-    def on_remove(self, entity, world):
-        super().on_remove(entity, world)
+    def h_removed(self, entity, world):
+        super().h_removed(entity, world)
         if world.dispatch_enabled:
             world.dispatch_enabled = False
             self.marks.append(len(self.log))
+
+
+class HS(H):
+    """One-shot: on_add detaches its own component again."""
+    gone = None
+
+    def h_added(self, entity, world):
+        super().h_added(entity, world)
+        removed = world.remove_component(entity, HS)
+        self.gone.append((entity, self, removed))
 
 
 @desper.event_handler('ping')
@@ -129,15 +147,35 @@ class P(Falsy, Plain):
         self.log.append((self.label, 'ping', token, None))
 
 
-@desper.event_handler('on_add')
+@desper.event_handler(on_add='attached')
 class OA(Plain):
-    """on_add only."""
+    """on_add only, under a mapped name."""
 
-    def on_add(self, entity, world):
+    def attached(self, entity, world):
         self.log.append((self.label, 'on_add', entity, id(world)))
 
+    def on_add(self, *args):
+        self.log.append((self.label, 'DECOY on_add called by name', args,
+                         None))
 
-TYPES = {c.__name__: c for c in (A, B, X, N, H, HB, HD, HZ, P, OA)}
+
+class _Types(dict):
+    """Component classes by name.  B(A) is defined lazily, the first time an
+    operation needs it - i.e. after queries by A have already been answered
+    (a memoised subclass walk must not go stale)."""
+
+    def __missing__(self, name):
+        if name == 'B':
+            cls = type('B', (A,), {})
+            self[name] = cls
+            return cls
+        raise KeyError(name)
+
+    def defined(self, name):
+        return dict.__contains__(self, name)
+
+
+TYPES = _Types({c.__name__: c for c in (A, X, N, H, HB, HD, HZ, HS, P, OA)})
 
 
 class RecProc(desper.Processor):
@@ -234,6 +272,7 @@ class WorldDriver:
         ctx.callback_errors = []
         ctx.effects = []     # (entity, row existed) of in-callback deletes
         ctx.redisabled = []  # log positions at which a callback disabled
+        ctx.selfremoved = []  # (entity, component, returned) of one-shots
         if self.processors:
             for klass in (RecProc, DelProc):
                 proc = klass(ctx.log)
@@ -283,6 +322,7 @@ class WorldDriver:
             comp.sink = ctx.callback_errors
             comp.effects = ctx.effects
             comp.marks = ctx.redisabled
+            comp.gone = ctx.selfremoved
         ctx.comps.append(comp)
         return comp
 
@@ -554,6 +594,24 @@ class WorldDriver:
                             f'{op}: a query issued from {err[0]}.{err[1]}'
                             f'(entity {err[2]}) raised {err[3]}',
                             callback=err[1], op=kind)
+        for e, comp, removed in ctx.selfremoved:
+            # a one-shot component detached itself from inside its on_add
+            ctx.hits['one_shot_removes_itself'] += 1
+            if removed is not comp:
+                self.fail('Q', 'remove_result',
+                          f'{comp.label} removed itself from its on_add, '
+                          f'remove_component returned {removed!r}',
+                          op='remove', exact=True)
+            row = ctx.rows.get(e, {})
+            if row.get('HS') is comp:
+                del row['HS']
+                if not row:
+                    del ctx.rows[e]
+                    if e in ctx.pending:
+                        ctx.pending.discard(e)
+                        ctx.ghost.add(e)
+            events.append((comp, 'on_remove', e))
+        del ctx.selfremoved[:]
         self._resolve_effects(ctx)
 
         if 'L' in self.own:
@@ -628,6 +686,18 @@ class WorldDriver:
                       f'callback had disabled dispatching', op=op[0],
                       disabled_by_callback=True)
         if op[0] == 'enable':
+            # callbacks caused *by* released callbacks (a one-shot removing
+            # itself in its postponed on_add) are delivered directly, in the
+            # middle of the release: each exactly once, then set aside
+            for x in want:
+                k = key(x)
+                if got.count(k) != 1:
+                    self.fail('L', 'callbacks_exactly_once',
+                              f'{op}: {k[:3]} delivered {got.count(k)} '
+                              f'time(s) during the release', op='enable',
+                              missing=[k[1]] if not got.count(k) else [],
+                              extra=[k[1]] if got.count(k) > 1 else [])
+                got.remove(k)
             groups = ctx.postponed
             ctx.postponed = []
             flat = [x for g in groups for x in g]
@@ -706,6 +776,8 @@ class WorldDriver:
         if 'Q' in self.own:
             sent = object()
             for t in self.types:
+                if not TYPES.defined(t):
+                    continue    # no instance can exist yet
                 klass = TYPES[t]
                 try:
                     got = w.get(klass)
@@ -732,6 +804,8 @@ class WorldDriver:
                                     f'get_components({e}) = {list(got)}, '
                                     f'attached = {list(row.values())}')
                 for t in self.types:
+                    if not TYPES.defined(t):
+                        continue
                     klass = TYPES[t]
                     cands = [c for c in row.values() if isinstance(c, klass)]
                     has = w.has_component(e, klass)
